@@ -122,6 +122,10 @@ fn start_client(handle: &Handle, case: &Case, seed: u64, rec: Recorder) -> Clien
 }
 
 pub fn run(case: &Case) -> Outcome {
+    match case.key_update_after {
+        Some(n) => std::env::set_var("S2N_QUIC_VERIF_KEY_UPDATE_AFTER", n.max(2).to_string()),
+        None => std::env::remove_var("S2N_QUIC_VERIF_KEY_UPDATE_AFTER"),
+    }
     let _clock = clock::Guard::new();
     let reads0 = clock::served();
     let (net, net_shared) = ScriptedNet::new(case.net.clone());
